@@ -187,6 +187,7 @@ Proof.
     + intros Hfr. lia.
     + rewrite Hcr. exact (pi_creator _ _ PI).
     + rewrite Hfs. exact (pi_nodup _ _ PI).
+    + rewrite Hfs. exact (pi_pos _ _ PI).
   - apply NoDup_dequeue. exact (i_qnd _ I).
   - intros e pid' Hpne. destruct (in_queue (queue s) (e, pid')) eqn:E.
     + apply in_queue_true. apply in_dequeue. split; [apply in_queue_true; exact E|congruence].
@@ -295,7 +296,7 @@ Lemma pool_inv_mono h p : pool_inv h p -> pool_inv (h + 1) p.
 Proof.
   intros PI. constructor;
     [exact (pi_sum _ _ PI)|exact (pi_farmers _ _ PI)|exact (pi_rules _ _ PI)|exact (pi_rule _ _ PI)|exact (pi_denoms _ _ PI)
-    |pose proof (pi_last _ _ PI); lia|exact (pi_started _ _ PI)| |exact (pi_creator _ _ PI)|exact (pi_nodup _ _ PI)].
+    |pose proof (pi_last _ _ PI); lia|exact (pi_started _ _ PI)| |exact (pi_creator _ _ PI)|exact (pi_nodup _ _ PI)|exact (pi_pos _ _ PI)].
   intros Hfr. apply (pi_fresh _ _ PI). lia.
 Qed.
 
@@ -319,6 +320,7 @@ Proof.
   - exact (i_qnd _ I').
   - pose proof (i_height _ I'). lia.
   - exact (i_seq _ I').
+  - exact (i_nodup _ I').
 Qed.
 
 (** ** CreatePool *)
@@ -383,6 +385,7 @@ Proof.
     - lia.
     - intros _. unfold new_rules. rewrite Forall_map. apply Forall_forall. intros [[d t] pb] _. reflexivity.
     - exact Hact.
+    - constructor.
     - constructor. }
   destruct (send_many_bal _ _ _ _ _ Hsend) as [_ Hb2].
   pose proof (deduct_fee_bal _ _ _ Hfee HwF HwC) as Hb1.
@@ -413,6 +416,7 @@ Proof.
   - apply NoDup_enqueue. exact (i_qnd _ I).
   - exact Hh.
   - pose proof (i_seq _ I). lia.
+  - apply keys_set_NoDup. exact (i_nodup _ I).
 Qed.
 
 (** ** AdjustPool *)
@@ -538,7 +542,8 @@ Proof.
       destruct (upd_iv_cases _ _ Hlast) as [Hz|(_ & HL & _)]; [|pose proof (pi_started _ _ PI HL); lia].
       rewrite Hz, collect1_zero. eapply Forall_impl; [|exact (pi_fresh _ _ PI Hfr)]. simpl. intros r ->. reflexivity.
     - rewrite Hcr. exact (pi_creator _ _ PI).
-    - rewrite Hfs. exact (pi_nodup _ _ PI). }
+    - rewrite Hfs. exact (pi_nodup _ _ PI).
+    - rewrite Hfs. exact (pi_pos _ _ PI). }
   set (q' := if e =? p_end p1 then queue s else enqueue (dequeue (queue s) (p_end p1, pid)) (e, pid)).
   assert (in_queue q' (e, pid) = true) as Hinq.
   { unfold q'. destruct (Z.eqb_spec e (p_end p1)) as [He|He]; [rewrite He, Hend; exact Hq|].
